@@ -1,6 +1,8 @@
 package nego
 
 import (
+	"fmt"
+	"strconv"
 	"strings"
 
 	"verifharness/internal/gen"
@@ -312,15 +314,25 @@ func genWS(r *gen.Rand, hostile, afterComma, afterSemi bool) string {
 }
 
 func genQ(r *gen.Rand, prev string) string {
-	switch r.PickW(42, 12, 34, 12) {
+	switch r.PickW(40, 12, 26, 12, 6, 4) {
 	case 0:
 		return ""
 	case 1:
 		return gen.Pick(r, qZero)
 	case 2:
 		return gen.Pick(r, qLits)
-	default:
+	case 3:
 		return prev // deliberate equal-quality tie (possibly "no weight")
+	case 4:
+		// any three-decimal weight
+		return fmt.Sprintf("0.%03d", r.Range(1, 999))
+	default:
+		// a weight one thousandth away from the previous range's (order must still follow it)
+		if f, err := strconv.ParseFloat(prev, 64); err == nil && f > 0.0015 && f < 0.9985 {
+			k := int(f*1000+0.5) + 1 - 2*r.Intn(2)
+			return fmt.Sprintf("0.%03d", k)
+		}
+		return fmt.Sprintf("0.%03d", r.Range(1, 999))
 	}
 }
 
